@@ -361,6 +361,10 @@ def compile_logical_or_and_and_operator(compiler, expr, operator, args):
                 assignment.value = enbool(assignment.value)
             else:
                 ret.expr = enbool(ret.force_expr)
+                # The result is no longer just the first operand's
+                # temporary variable (if it had one), so a later
+                # `Result.rename` mustn't treat it as such.
+                ret.temp_variables = []
 
     if var:
         ret.expr = get(expr)
